@@ -56,7 +56,7 @@ H("c02_fuse_tokens", "c02_fuse::c02_fuse_tokens", ["C01", "C18", "C12"],
 H("c02_fuse_dense", "c02_fuse::c02_fuse_dense", ["C02"],
   ["generator::utils::should_break_with_space", "generator::utils::break_concat", "generator::utils::break_variable_arguments",
    "generator::utils::break_minus", "generator::utils::break_equal", "generator::utils::break_long_string"],
-  "same token pairs as c02_fuse_tokens; numbers as write_number spells them (not ending in `.` or `_`)",
+  "same token pairs as c02_fuse_tokens; numbers as write_number spells them (no trailing `.`, no underscore)",
   mode="lean", timeout_s=900, replay="fuse_dense",
   assumptions=["the dense/readable writers call the break_* predicate named in each claim before the token it guards (call sites read, not executed)"])
 
